@@ -121,6 +121,8 @@ func enumC01(c *fw.Ctx, do func(src, shard string) bool) {
 				for _, b := range []string{"fi", "ff", "fs", "fb", "fn", "TYPE", "NAME", "2", `"a"`} {
 					for _, op := range gen.BinOps {
 						do(`def blk "nm" { fi = 7; ff = 2.5; fs = "a"; fb = false; fn = nil; r = `+a+" "+op+" "+b+`; print r }`, "")
+						// the same operands after a child block (and an earlier block's child) that used the same field names has ended
+						do(`def old { def kid { fi = "x"; ff = 1; fs = 3; fb = true; fn = 9; fz = 5 } }; def blk "nm" { fi = 7; ff = 2.5; fs = "a"; fb = false; fn = nil; def kid "k" { fi = 2.5; ff = "y"; fs = nil; fb = 1; fn = "n" }; r = `+a+" "+op+" "+b+`; print r }`, "")
 					}
 				}
 			}
@@ -231,6 +233,37 @@ func enumC01(c *fw.Ctx, do func(src, shard string) bool) {
 				}
 			}
 			c.Bound("prefix_over_shortcircuit_over_comparison", true)
+			// (g) short-circuit shapes in a LATER statement: whatever the compiler keeps between statements
+			// (pending-jump lists, scratch buffers) must not leak into the next expression
+			scShapes := []string{"%s and %s", "%s or %s", "%s and %s and %s", "%s or %s or %s", "%s and (%s and %s)", "(%s and %s) and %s",
+				"%s and not (%s and %s)", "%s and (%s or %s and %s)", "%s or (%s or %s)", "%s or (%s and %s)", "%s and (x = %s and %s)",
+				"not (%s and %s) and %s", "%s and %s or %s and %s", "%s and (%s and (%s and %s))", "%s and %s and (%s and %s) and %s",
+				"%s or %s and (%s or (%s and %s))", "%s and (%s == %s and %s)", "%s and - (%s and %s)"}
+			var firsts, seconds []string
+			for _, sh := range scShapes {
+				n := strings.Count(sh, "%s")
+				for mask := 0; mask < 1<<n; mask++ {
+					args := make([]any, n)
+					for i := range args {
+						args[i] = []string{"false", "2"}[mask>>i&1]
+					}
+					e := fmt.Sprintf(sh, args...)
+					seconds = append(seconds, e)
+					if mask == 1<<n-1 || mask == 0 {
+						firsts = append(firsts, e)
+					}
+				}
+			}
+			for _, e1 := range firsts {
+				for _, e2 := range seconds {
+					do("var x = 1; print "+e1+"; print "+e2+"; print x", "")
+				}
+			}
+			for _, e2 := range seconds {
+				do("var x = 1; def blk { f = 1 and 2 and 3; g = "+e2+"; h = x }", "")
+				do("var x = 1; print 1 and 2; print 1 and 2 and 3 and 4; print "+e2, "")
+			}
+			c.Bound("shortcircuit_in_later_statement", len(firsts)*len(seconds))
 			// (e) deep nesting
 			for _, n := range []int{8, 16, 32, 64} {
 				for _, op := range gen.BinOps {
